@@ -727,7 +727,7 @@ class GetClearModbusPlusRequest(DiagnosticStatusSimpleRequest):
             data = 2 + 108 # byte count(2) + data (54*2)
         else:
             data = 0
-        return 1 + 2 + 2 + 2+ data
+        return 1 + 2 + 2 + data
 
     def execute(self, *args):
         ''' Execute the diagnostic request on the given device
